@@ -523,7 +523,7 @@ def _c17_property(r):
     return None
 
 PROPS["C17"] = {
-    "theorem_modules": ["Sidetree.Props.C17", "Sidetree.Props.C17Vdr"],
+    "theorem_modules": ["Sidetree.Props.C17", "Sidetree.Props.C17Vdr", "Sidetree.Props.C17Reports"],
     "prescribes": "Sidetree.Did.resolve / processOperation (Props.C17)",
     "obligations": [{"name": "Shape_Did", "facts": "module:Did"}, {"name": "C17_defaultProtocol", "facts": ["defaultProtocol"]}] + _PARSER_OBL +
                    [{"name": "Shape_Transformer", "facts": "module:Transformer"}, {"name": "Shape_Client", "facts": "module:Client"}],
@@ -542,7 +542,8 @@ PROPS["C17"] = {
     "level_text": "Proved in Lean: a DID resolves only if it begins with the handler's namespace and a colon (so did:foobar never resolves on did:foo); short forms are refused; an initial "
                   "state is accepted only if it is the exact unpadded base64url encoding of the canonical JSON of the request it decodes to; every resolvable DID ends in suffix:initial-state "
                   "where the request is accepted by the parser under the handler's protocol and the suffix is the sha2-256 model multihash of its suffix data (via C03); the id and "
-                  "equivalent id of the result; the model's protocol value equals the literal in config/protocol.go. 'Resolves to a document equivalent to the one supplied' and "
+                  "equivalent id of the result; an offline resolution reports published = false and, in its method metadata, exactly the recovery commitment and anchor origin of the suffix data "
+                  "embedded in the DID (resolve_reports_recovery_commitment); the model's protocol value equals the literal in config/protocol.go. 'Resolves to a document equivalent to the one supplied' and "
                   "'creation is deterministic' rest on the correspondence (ProcessOperation then ResolveDocument compared in full; VDR.Create repeated).",
     "level_note": "Trusted: Lean kernel; extractor; harness. did-go's document (un)marshalling used by VDR.Create/Read is not modelled: the VDR stream checks the round trip with an oracle "
                   "written in the harness (key ids, purposes, services, also-known-as survive; same input gives the same DID).",
@@ -567,7 +568,8 @@ PROPS["C18"] = {
                   "reference twice, loses none, and is a sorted sublist; every internal key yields exactly one verification method with id DID#id (or #id under @base), its type and "
                   "controller = DID; JWK material is preserved and Ed25519 2018/2020 keys are converted to base58 / multibase(z-base58); a key is referenced from a relationship iff one of "
                   "its purposes names it (with multiplicity); key contexts have no duplicates; every service carries qualified id, type, endpoint; the metadata table (deactivated, canonical "
-                  "and equivalent ids as given, created iff published, version id, updated iff version id and updated > 0). The comparator, the key-context map and the purpose switch are "
+                  "and equivalent ids as given, created iff published, version id, updated iff version id and updated > 0) and the method metadata table (published flag as given; recovery and update "
+                  "commitment each present iff non-empty; anchor origin; operation lists iff asked for and non-empty). The comparator, the key-context map and the purpose switch are "
                   "tied to the Go AST.",
     "level_note": "Trusted: Lean kernel; extractor; harness. base58 and the RFC 3339 calendar arithmetic are executable models validated by the stream.",
 }
